@@ -14,6 +14,12 @@ package microreader
 //@     invariant 0 <= offset && offset <= fileSize && int64(len(rbuf)) == fileSize
 //@   loop 2:
 //@     invariant 0 <= offset && offset <= fileSize && int64(len(rbuf)) == fileSize
+// The column-name dictionary maps each name to its insertion rank: the values
+// are written only by this function as len(dict) and are therefore small
+// non-negative integers.  A map-value invariant is outside the contract
+// language, so this is an explicit (unchecked) assumption at the read.
+//@   site mapread allBmi.CnameDict[cname] #1:
+//@     assume implies(ok, 0 <= value && value <= 1048576)
 //@ end
 
 //@ func ReadMetricsBlockSummaries
